@@ -286,6 +286,11 @@ JOINT = ('MarriedFilingJointly', 'QualifyingSurvivingSpouse', 'QualifyingWidowWi
 
 @functools.lru_cache(maxsize=200000)
 def _tax(year, status, cents):
+    # at or above $100,000 the unrounded bracket formula: an exact half-cent result may be rounded either way by binary
+    # floating point (the rules using this carry tol=0.0051, the tolerance C07 uses)
+    if cents >= 100000 * 100:
+        from fractions import Fraction
+        return float(statutory.tax_formula(year, status, Fraction(cents, 100)))
     return float(statutory.expected_tax(year, status, cents / 100.0))
 
 
@@ -429,7 +434,8 @@ T(ALL, '1040', '16', 'carry', _f1040_16_wkst,
   'Qualified Dividends and Capital Gain Tax Worksheet line 25: "Tax on all taxable income ... Also include this amount on the entry '
   'space on Form 1040 or 1040-SR, line 16"')
 T(ALL, '1040', '16', 'tax-table', _f1040_16_table,
-  'Form 1040 line 16 instructions: Tax Table (taxable income under $100,000) or Tax Computation Worksheet on line 15')
+  'Form 1040 line 16 instructions: Tax Table (taxable income under $100,000) or Tax Computation Worksheet on line 15',
+  tol=0.0051)   # an exact half-cent result of the worksheet formula may be rounded either way (same tolerance as C07)
 T(ALL, '1040', '18', 'sum', SUM('16', '17'), 'Form 1040 line 18: Add lines 16 and 17')
 T(Y2223, '1040', '19', 'carry', CARRY('1040_s8812.14'),
   'Schedule 8812 (2022/2023) line 14: "Enter this amount on Form 1040, 1040-SR, or 1040-NR, line 19"')
@@ -521,10 +527,10 @@ T(ALL, QD, '18', 'product', MUL('17', 0.15), _QC + 'line 18: Multiply line 17 by
 T(ALL, QD, '19', 'sum', SUM('9', '17'), _QC + 'line 19: Add lines 9 and 17')
 T(ALL, QD, '20', 'difference', DIFF('10', '19'), _QC + 'line 20: Subtract line 19 from line 10')
 T(ALL, QD, '21', 'product', MUL('20', 0.20), _QC + 'line 21: Multiply line 20 by 20% (0.20)')
-T(ALL, QD, '22', 'tax-table', TAX_ON('5'),
+T(ALL, QD, '22', 'tax-table', TAX_ON('5'), tol=0.0051, cite=
   _QC + 'line 22: Figure the tax on the amount on line 5 (Tax Table if less than $100,000, else Tax Computation Worksheet)')
 T(ALL, QD, '23', 'sum', SUM('18', '21', '22'), _QC + 'line 23: Add lines 18, 21, and 22')
-T(ALL, QD, '24', 'tax-table', TAX_ON('1'),
+T(ALL, QD, '24', 'tax-table', TAX_ON('1'), tol=0.0051, cite=
   _QC + 'line 24: Figure the tax on the amount on line 1 (Tax Table if less than $100,000, else Tax Computation Worksheet)')
 T(ALL, QD, '25', 'smaller', MIN('23', '24'), _QC + 'line 25: Tax on all taxable income. Enter the smaller of line 23 or line 24')
 
